@@ -14,7 +14,7 @@ RULE = ("histories of <= 8 group operations (re-open by name, add [optionally a 
         "sequential with replace or append, progress / list_*_jobs) with <= 4 added jobs x server scripts (per HTTP "
         "request: accept with id + status / 429 / 500; ids mostly fresh, sometimes reused), run on the real JobGroup/"
         "RemoteJob/RPCHandler over a temporary directory under the `responses` library; streams: exhaustive short "
-        "histories over a 10-letter alphabet x fixed scripts, random plain jobs, random sampler-like jobs "
+        "histories over a 10-letter alphabet x fixed scripts, a corpus of past witnesses, random plain jobs, random sampler-like jobs "
         "(job_context, delta parameters), malformed (unfilled parameters, unknown keywords, duplicate ids); every "
         "history also runs with a re-open inserted before each launch. After every operation: outcome (returned / "
         "exception class), memory, file content, re-opened group, requests received, number of answers consumed and "
@@ -28,13 +28,12 @@ ASSUMPTIONS = ["every add uses a fresh RemoteJob object (one object added twice 
                "wall-clock: every access to RemoteJob.status is more than STATUS_REFRESH_DELAY after the previous one "
                "(fake clock); a throttled refresh is the script answer 'same status'",
                "authentication tokens contain no space (JobGroup._build_remote_job splits the header on ' ')",
-               "the value of the dead 'job_context' entry in the file is not compared for jobs whose request dictionary "
-               "is shared with the job they were re-run from (it is overwritten before any use)",
                "track_progress, get_results, delete_* are not modelled"]
-EXPLANATION = ("S(m): the file is exactly the image of memory. Theorems: S holds after every operation of every "
-               "history/script with plain, well-formed jobs unless the model's ghost flag reports a status change "
-               "inside a launch loop that no write followed; the flag is never raised by re-open/add/run_parallel/"
-               "progress. Witnesses (refuted): job_context, unfilled max_samples, rerun-loop refresh, sequential wait.")
+EXPLANATION = ("Exact(m): the file is exactly the image of memory. Theorems (current code, any jobs): Exact holds after "
+               "every operation of every history/script unless the model's ghost flag reports a status change inside a "
+               "launch loop that no write followed; the flag is never raised by re-open/add/run_parallel/progress. "
+               "Still refuted: rerun-loop refresh, sequential wait (open finding). Repaired and kept as corpus "
+               "regression guards: job_context lost on re-open (bf317fcd), add raising after the append (13320b52).")
 
 NAME_PREFIX = "c19g"
 ST = ["WAITING", "RUNNING", "SUCCESS", "ERROR", "CANCELED", "SUSPENDED", "CANCEL_REQUESTED", "UNKNOWN"]
@@ -409,22 +408,8 @@ def evaluate(env, ops, script, model_out):
             raw = json.loads(open(path).read())
             dk = [enc_djob(env, d) for d in raw["job_group_data"]]
             if dk != m_disk:
-                shared = {}
-                for j in g._jobs:
-                    shared[id(j._request_data)] = shared.get(id(j._request_data), 0) + 1
-                ok = len(dk) == len(m_disk)
-                if ok:
-                    for a, b in zip(dk, m_disk):
-                        if a == b:
-                            continue
-                        # dead job_context entry of a request dictionary shared with a re-run job (see ASSUMPTIONS)
-                        if not (a[:3] == b[:3] and a[3] and b[3] and a[3][0][:2] == b[3][0][:2]
-                                and (any(v > 1 for v in shared.values())
-                                     or any(p[0] == "rerun" and not p[2] for p in ops[:i + 1]))):
-                            ok = False
-                if not ok:
-                    problems.append((i, f"model-file-{opname(o)}", f"file content differs from the model {where}", m_disk, dk))
-                    break
+                problems.append((i, f"model-file-{opname(o)}", f"file content differs from the model {where}", m_disk, dk))
+                break
             clock = env.clock[0]
             g2 = env.JobGroup(st["name"])
             env.clock[0] = clock
@@ -580,6 +565,24 @@ FIXED_SCRIPTS = [
 ]
 
 
+# regression guards: witnesses of the defects repaired by bf317fcd (job_context restored on re-open) and 13320b52
+# (add validates before the append), and of the still open launch-loop finding
+_CTX = [1, [[], [[10]], 1], [], [], [7], 0]
+_CTXMAP = [2, [[], [[10]], 2], [], [[[], [20]]], [3], 1]
+_UNFILLED = [1, [[], [[10]], 1], [[]], [], [], 0]
+CORPUS = [
+    ([["add", _CTX, False, [], False], ["reopen"], ["run", False]], [[0, 10, 0]]),
+    ([["add", _CTX, False, [], False], ["run", False], ["progress", 0], ["rerun", False, False], ["reopen"], ["progress", 0]],
+     [[0, 10, 0], [0, 10, 3], [0, 11, 0], [0, 11, 2], [0, 11, 2]]),
+    ([["add", _CTXMAP, False, [25], False], ["reopen"], ["run", True]], [[0, 10, 0], [0, 10, 2]]),
+    ([["add", _UNFILLED, False, [], False], ["add", [2, [[], [], 2], [], [], [], 0], False, [], False], ["run", False]],
+     [[0, 10, 0]]),
+    ([["add", _UNFILLED, False, [5], False], ["run", False]], [[0, 10, 0]]),
+    ([["add", [1, [[], [], 1], [], [], [], 0], True, [], False], ["rerun", False, False]], [[0, 10, 0], [0, 11, 0], [0, 12, 1]]),
+    ([["add", [1, [[], [], 1], [], [], [], 0], False, [], False], ["run", True]], [[0, 10, 0], [0, 11, 1]]),
+]
+
+
 def with_reopens(ops):
     out = []
     for o in ops:
@@ -647,6 +650,8 @@ def run(ctx):
                 ops.append(o)
             for sc in (FIXED_SCRIPTS if len(w) < 3 else FIXED_SCRIPTS[:2]):
                 hist.append(("exhaustive-short", ops, sc))
+        for ops, sc in CORPUS:
+            hist.append(("corpus", copy.deepcopy(ops), sc))
         n_ex = len(hist)
         for stream, n in (("plain", ctx.n(1200, 12000)), ("context", ctx.n(500, 5000)), ("malformed", ctx.n(500, 5000))):
             for i in range(n):
